@@ -175,7 +175,9 @@ func runC43(c *eng.Ctx) {
 		g := eng.Guards(rm)
 		var cmp *ssa.BinOp
 		for _, a := range g {
-			if b, ok := a.V.(*ssa.BinOp); ok && b.Op == token.GTR && a.Pos {
+			// «age > limit» — as a taken `>` test or as a failed `<=` test (the
+			// early-continue spelling)
+			if b, ok := a.V.(*ssa.BinOp); ok && ((b.Op == token.GTR && a.Pos) || (b.Op == token.LEQ && !a.Pos)) {
 				if k, isK := eng.ConstInt64(b.Y); isK && k == lim {
 					cmp = b
 				}
